@@ -138,8 +138,15 @@ class C17(Prop):
     def _tagged(self):
         self.tag = (self.tag + 1) % udp.SENTINEL_BASE
         tag = f"{self.tag:06x}"
-        d = {"model": "V2_ESP", "device_id": tag, "device_key": "01", "name": "probe", "ip": "10.0.0.1", "mac": "00:11:22:33:44:55",
-             "state": "ON", "power": 100, "remaining": 60, "auto_shutdown": 3600}
+        # every family takes its turn, with field values from the edges of their domains: "listening" means that whatever a
+        # device may legitimately broadcast reaches the callback
+        n = self.tag
+        model = ("V2_ESP", "RUNNER", "BREEZE", "POWER_PLUG", "RUNNER_MINI", "V4", "MINI", "TOUCH", "V2_QCA")[n % 9]
+        d = {"model": model, "device_id": tag, "device_key": "01", "name": ("probe", "p", "x" * 32, "דוד")[n % 4], "ip": "10.0.0.1", "mac": "00:11:22:33:44:55",
+             "state": ("ON", "OFF")[(n // 9) % 2], "power": (100, 0, 65535, 15)[n % 4], "remaining": (60, 0, 86399)[n % 3], "auto_shutdown": (3600, 86399, 0)[n % 3],
+             "position": (0, 100, 50, 1)[(n // 9) % 4], "direction": ("STOP", "UP", "DOWN")[n % 3], "mode": ("COOL", "FAN", "AUTO", "DRY", "HEAT")[n % 5],
+             "fan": ("LOW", "AUTO", "HIGH", "MEDIUM")[n % 4], "swing": ("OFF", "ON")[n % 2], "temp_tenths": (250, 0, 65535)[n % 3], "target": (24, 0, 255)[n % 3],
+             "remote_id": "ELEC7022"}
         return tag, rb.encode(d)
 
     async def run_case(self, case, acc, ctx):
